@@ -23,6 +23,10 @@ class NotEvaluable(Exception):
     pass
 
 
+class UnwrittenRead(Exception):
+    """the tree reads a compiler temporary before anything was stored to it (every object of the program is initialised by the harness)"""
+
+
 # ------------------------------------------------------------------ operand shapes ---
 # name -> (declared type, bit-field width or None)
 INT_OPERANDS = [(t, t, None) for t in ('bool', 'char', 'uchar', 'short', 'ushort', 'int', 'uint', 'long', 'ulong', 'enum')]
@@ -163,7 +167,7 @@ class Evaluator:
     def load(self, n):
         p = self.place(n)
         if p not in self.mem:
-            raise NotEvaluable('read of an object that was never written')
+            raise UnwrittenRead()
         self.reads += 1
         raw = self.mem[p]
         bf = self.bitfield(n) if self.kind(n) == 'ND_MEMBER' else None
@@ -348,7 +352,10 @@ def judge(B, it, ctx, tree, leaf, decl, width, expect):
         ev = Evaluator(it, B.T, B.E)
         p = ev.place(leaf)
         ev.mem[p] = (x % (2 ** width)) if width is not None else x
-        got = ev.eval(tree)
+        try:
+            got = ev.eval(tree)
+        except UnwrittenRead:
+            return False, 'the expression reads a temporary of the lowering before anything is stored to it: its value is indeterminate', 'reads-unwritten-temporary'
         after = ev.load(leaf)
         want, want_after = expect(x)
         if isinstance(got, tuple):
